@@ -87,6 +87,7 @@ struct TickitRootWindow {
 };
 
 static void _request_restore(TickitRootWindow *root);
+static void _request_restore_above(TickitWindow *win);
 static void _request_later_processing(TickitRootWindow *root);
 static void _request_hierarchy_change(HierarchyChangeType, TickitWindow *);
 static void _do_hierarchy_change(HierarchyChangeType change, TickitWindow *parent, TickitWindow *win);
@@ -496,6 +497,7 @@ void tickit_window_show(TickitWindow *win)
     if(!win->parent->focused_child &&
        (win->focused_child || win->is_focused)) {
       win->parent->focused_child = win;
+      _request_restore_above(win->parent);
     }
   }
   tickit_window_expose(win, NULL);
@@ -509,6 +511,7 @@ void tickit_window_hide(TickitWindow *win)
     TickitWindow *parent = win->parent;
     if(parent->focused_child && (parent->focused_child == win)) {
       parent->focused_child = NULL;
+      _request_restore_above(parent);
     }
     tickit_window_expose(parent, &win->rect);
   }
@@ -705,6 +708,17 @@ static void _request_restore(TickitRootWindow *root)
 {
   root->needs_restore = true;
   _request_later_processing(root);
+}
+
+/* The focus chain changed at or below win: the cursor must be re-established
+ * even if nothing gets exposed. Tolerates windows already detached from a root.
+ */
+static void _request_restore_above(TickitWindow *win)
+{
+  while(win->parent)
+    win = win->parent;
+  if(win->is_root)
+    _request_restore(WINDOW_AS_ROOT(win));
 }
 
 static int _flush_fn(Tickit *t, TickitEventFlags flags, void *info, void *user)
@@ -943,8 +957,10 @@ static void _do_hierarchy_change(HierarchyChangeType change, TickitWindow *paren
       fmt = "Window " WINDOW_PRINTF_FMT " removes " WINDOW_PRINTF_FMT;
       _do_hierarchy_remove(parent, win);
       win->parent = NULL;
-      if(parent->focused_child && parent->focused_child == win)
+      if(parent->focused_child && parent->focused_child == win) {
         parent->focused_child = NULL;
+        _request_restore_above(parent);
+      }
       break;
     case TICKIT_HIERARCHY_RAISE:
       fmt = "Window " WINDOW_PRINTF_FMT " raises " WINDOW_PRINTF_FMT;
